@@ -26,6 +26,11 @@ def vecRepeat (b : Int) (n : Int) : Res Bytes :=
 `validUtf8`, exactly as `std::str::from_utf8` is in RustPrelude3Str.lean -/
 def stringFromUtf8 (bs : Bytes) : Res Bytes := if validUtf8 bs then .ok bs else .err "FromUtf8Error"
 
+/-- `pairs.into_iter().collect::<BTreeMap<String, V>>()`: the pairs inserted in order into the key-sorted entry list
+(`Rs.btreeInsert` of RustPrelude3.lean: the value of an equal key is replaced, the last one wins) -/
+def btreeCollect {β : Type} (pairs : List (Bytes × β)) : List (Bytes × β) :=
+  pairs.foldl (fun m kv => btreeInsert m kv.1 kv.2) btreeNew
+
 /-! ## `serde_json` values as the model's mirror `SJ` (a MAPPING, see the header) -/
 
 /-- `serde_json::Value::Null` -/
